@@ -48,6 +48,12 @@ An exception in a nested tree is attributed to the leaves of that tree which fai
 stage; otherwise to "<function>:nested:<shape of the smallest subtree that still fails>".  When the XML/notation parser
 rejects a date whose formatted text is not an LLSD date (YYYY-MM-DDTHH:MM:SS[.f]Z) the site is the formatter.
 
+REALS (family "real").  Besides the real / vector leaves of the tree alphabet (which include F32-widened doubles: non-dyadic
+fractions, whole numbers above 2**24, FLT_MAX/FLT_MIN/denormals, and Vector2/3/4/Quaternion made of them), a sweep: every
+finite F32 exponent (denormals included) x 8 mantissa patterns x both signs widened to double, and every finite F64 exponent
+(quick: every 16th) x 6 mantissa patterns x both signs, through all 6 codecs, compared bit-exactly.  Clause
+llsd-value-preserved, site "<codec or function>:real-f32-sweep" / "...:real-f64-sweep".
+
 DATE MICROSECONDS (family "us").  The tree alphabet only uses microsecond values that are exact in binary; the sub-second
 digits are swept separately: every microsecond value 0..999_999 (quick: 0..19_999) of one naive-UTC date through
 {binary, notation, XML}, TZ=UTC.  Clause llsd-date-instant, site "<parser>:date-microseconds".
@@ -224,6 +230,34 @@ for _mask in range(1, 1 << len(SIG_CHARS)):
     for _o, _s in (("A", "a" + "b".join(_chars) + "c"), ("B", "".join(_chars)), ("C", "".join(reversed(_chars)) + "z")):
         _leaf(f"xstr:{_kind[7:]}:{_o}", _kind, (lambda s=_s: s), ("string", _s))
         XSTR_LEAVES.append(f"xstr:{_kind[7:]}:{_o}")
+
+
+
+def f32(x: float) -> float:
+    """x rounded to the nearest F32 and widened back to a double -- what every F32 message field / vector component is."""
+    return struct.unpack("<f", struct.pack("<f", x))[0]
+
+
+# Doubles that are exactly F32-representable (non-dyadic fractions, whole numbers above 2**24, the F32 range limits and
+# denormals) and vectors made of them: the values that actually reach LLSD from the wire.  Compared bit-exactly like every real.
+XREAL_LEAVES: List[str] = []
+_F32_REALS = [f32(0.3), f32(0.1), f32(1 / 3), f32(-2.7), f32(4001.123), f32(0.001), f32(1e-7), 1.0000001192092896, 0.9999999403953552,
+              16777215.0, 16777216.0, 16777218.0, -16777220.0, 123456792.0, f32(4e9), f32(1e10), f32(1.2345678e20), -f32(6.02e23),
+              3.4028234663852886e38, -3.4028234663852886e38, 1.1754943508222875e-38, 1.1754942106924411e-38, 1.401298464324817e-45,
+              -1.401298464324817e-45]
+for _f in _F32_REALS:
+    assert f32(_f) == _f, _f
+    _kind = "real-f32-whole" if _f == int(_f) and abs(_f) < 1e30 else "real-f32"
+    _leaf(f"real32:{_f!r}", _kind, (lambda f=_f: f), ("real", _bits(_f)))
+    XREAL_LEAVES.append(f"real32:{_f!r}")
+_A, _B, _C, _D = f32(0.3), f32(-2.7), f32(4001.123), 123456792.0
+_leaf("vec2:f32", "Vector2-f32", lambda: Vector2(f32(0.1), f32(1 / 3)), _vec(f32(0.1), f32(1 / 3)))
+_leaf("vec3:f32", "Vector3-f32", lambda: Vector3(_A, _B, _C), _vec(_A, _B, _C))
+_leaf("vec3:f32-big", "Vector3-f32", lambda: Vector3(_D, 16777218.0, 1.401298464324817e-45), _vec(_D, 16777218.0, 1.401298464324817e-45))
+_leaf("vec4:f32", "Vector4-f32", lambda: Vector4(_A, _B, _C, _D), _vec(_A, _B, _C, _D))
+_leaf("quat:f32", "Quaternion-f32", lambda: Quaternion(f32(0.1), f32(0.2), f32(0.3), f32(0.9273618495495703)),
+      _vec(f32(0.1), f32(0.2), f32(0.3), f32(0.9273618495495703)))
+XREAL_LEAVES += ["vec2:f32", "vec3:f32", "vec3:f32-big", "vec4:f32", "quat:f32"]
 
 for _name, (_k, _b, _e) in LEAVES.items():  # the alphabet's own consistency (dates: hand formula vs aware arithmetic)
     _v = _b()
@@ -607,12 +641,12 @@ def _each_choice_pairs(xs: List[Any]):
 
 
 def xstr_trees() -> List[Any]:
-    """The notation-significant string product: each string alone, and each-choice in containers -- as the only element, as
+    """The notation-significant string product and the F32-widened reals / vectors: each leaf alone, and each-choice in containers -- as the only element, as
     first and second sibling (next string of the product / a base leaf), and one level further down.  Map keys here never
     contain a newline, so the notation-newline clause is evaluated for every one of these trees."""
     keys = [k for k in KEYS if "\n" not in k]
     nk = len(keys)
-    xs = [["L", n] for n in XSTR_LEAVES]
+    xs = [["L", n] for n in XSTR_LEAVES + XREAL_LEAVES]
     base = [["L", n] for n in BASE_LEAVES]
     out = list(xs)
     for i, x in enumerate(xs):
@@ -666,6 +700,58 @@ def check_us(part: Part, codec: str, us: int):
         part.outcome(("us", codec, "off", g[1] - exp if g[0] == "date" else g[0]))
     else:
         part.outcome(("us", codec, "same"))
+
+
+# ---- real sweep --------------------------------------------------------------------------------------------------------
+F32_MANT = [0x000000, 0x000001, 0x199999, 0x19999A, 0x2AAAAB, 0x400000, 0x555555, 0x7FFFFF]
+F64_MANT = [0x0, 0x1, 0x999999999999A, 0x5555555555555, 0x8000000000000, 0xFFFFFFFFFFFFF]
+
+
+def real_sweep(quick: bool) -> List[Tuple[int, str]]:
+    """(width, hex of the IEEE bits): every finite F32 exponent (denormals included) x 8 mantissa patterns x both signs, widened
+    to a double; every finite F64 exponent (quick: every 16th, plus the first and last two) x 6 mantissa patterns x both signs."""
+    out = []
+    for sign in (0, 1):
+        for e in range(0, 255):
+            for m in F32_MANT:
+                out.append((32, struct.pack(">I", sign << 31 | e << 23 | m).hex()))
+        for e in range(0, 2047):
+            if quick and e % 16 and e not in (1, 2045, 2046):
+                continue
+            for m in F64_MANT:
+                out.append((64, struct.pack(">Q", sign << 63 | e << 52 | m).hex()))
+    return out
+
+
+def check_real(part: Part, codec: str, width: int, hx: str):
+    part.count("evaluations")
+    part.count("real_evaluations")
+    witness = {"family": "real", "codec": codec, "width": width, "hex": hx, "tz": "UTC"}
+    v = struct.unpack(">f" if width == 32 else ">d", bytes.fromhex(hx))[0]
+    kind = f"real-f{width}-sweep"
+    exp = ("real", _bits(v))
+    try:
+        raw = _format_only(codec, v)
+    except Exception as e:
+        part.violation("llsd-roundtrip-completes", f"{_FORMAT_SITE[codec]}:{kind}", witness, f"format of {v!r} raised {e!r}")
+        return
+    try:
+        _, got, _ = run_codec(codec, v)
+    except Exception as e:
+        part.violation("llsd-roundtrip-completes", f"{_PARSE_SITE[codec]}:{kind}", witness, f"parse of {raw[-40:]!r} raised {e!r}")
+        return
+    g = canon(got)
+    if g != exp:
+        if codec in ("notation", "xml"):
+            site = f"{codec}:{kind}"
+        else:
+            site = f"{_PARSE_SITE[codec]}:{kind}" if raw == ref_binary(exp) else f"format_binary:{kind}"
+        part.violation("llsd-type-preserved" if g[0] != "real" else "llsd-value-preserved", site, witness,
+                       f"{v!r} (bits {exp[1]}) written as {raw[-40:]!r} parsed back as {got!r} ({g})")
+        part.outcome(("real", codec, width, "diff"))
+    else:
+        part.outcome(("real", codec, width, "same", len(raw) if codec in ("notation", "xml") else 0))
+    part.mark_nontrivial(("real", codec, width, hx[:3]))
 
 
 # =====================================================================================================================
@@ -1147,6 +1233,7 @@ def digest_canon(d) -> str:
 # =====================================================================================================================
 _G: msggen.Gen = None
 _TREES: List[Any] = []
+_REALS: List[Tuple[int, str]] = []
 
 
 def _set_tz(tz: str):
@@ -1186,6 +1273,11 @@ def _work(unit):
                 check_tree(part, tz, codec, spec)
         if lo == 0:
             part.sample({"family": "tree", "tz": tz, "tree": _TREES[min(hi - 1, len(BASE_LEAVES) + 5)]}, limit=1)
+    elif kind == "real":
+        _set_tz("UTC")
+        for width, hx in _REALS[unit[1]:unit[2]]:
+            for codec in CODECS:
+                check_real(part, codec, width, hx)
     elif kind == "us":
         _, lo, hi = unit
         _set_tz("UTC")
@@ -1204,7 +1296,7 @@ def _forked_map(fn, items, jobs: int):
 
 
 def run(run: Run):
-    global _G, _TREES
+    global _G, _TREES, _REALS
     quick = run.tier == "quick"
     t0 = time.time()
     _G = make_gen(run.seed)
@@ -1220,6 +1312,9 @@ def run(run: Run):
     for tz in TZS:
         for lo in range(0, len(_TREES), chunk):
             units.append(("tree", tz, lo, min(lo + chunk, len(_TREES))))
+    _REALS = real_sweep(quick)
+    for lo in range(0, len(_REALS), 1500):
+        units.append(("real", lo, min(lo + 1500, len(_REALS))))
     us_hi = 20_000 if quick else 1_000_000
     us_chunk = 5_000 if quick else 25_000
     for lo in range(0, us_hi, us_chunk):
@@ -1236,10 +1331,11 @@ def run(run: Run):
         "{serialize small/full, deserialize dict small/full, deserialize xml full} on one serializer instance vs a fresh instance per "
         "operation, + 4 ordered pairs of inject_message on one EventQueueManager; tree: all %d LLSD trees (incl. the 2^7-1 presence/absence combinations of apostrophe, double quote, backslash, LF, CR, NUL, non-ASCII x 3 orders as string leaves, "
         "each alone and each-choice in arrays/maps) of depth <= %d over %d base leaves / containers {array,map} of size 0..2 "
-        "(each-choice sibling pairs%s; %d map keys cycled) x %d codecs x %d process time zones; us: every microsecond value 0..%d of one "
+        "(each-choice sibling pairs%s; %d map keys cycled) x %d codecs x %d process time zones; real: %d F32/F64 bit patterns (every exponent x mantissa "
+        "patterns x signs) x 6 codecs; us: every microsecond value 0..%d of one "
         "date x {binary, notation, xml}. distinct_nontrivial = distinct (template, block counts, row tag) + distinct (tz, codec, tree "
         "shape, leaf-kind set)" % (len(names), len(_TREES), depth, len(BASE_LEAVES), "" if quick else ", full cross product at depth 2",
-                                   len(KEYS), len(CODECS), len(TZS), us_hi - 1))
+                                   len(KEYS), len(CODECS), len(TZS), len(_REALS), us_hi - 1))
     run.assumptions += [
         "message value domain = what LLSD/XML can carry: finite floats, str without code points forbidden by XML 1.0 (and without "
         "trailing NUL), bytes for binary fields, quaternions Quaternion(x,y,z) with derived W; the LLUDP header (flags, packet id, acks) "
@@ -1263,6 +1359,9 @@ def _replay_child(w):
     if fam == "tree":
         _set_tz(w["tz"])
         check_tree(part, w["tz"], w["codec"], w["tree"])
+    elif fam == "real":
+        _set_tz("UTC")
+        check_real(part, w["codec"], int(w["width"]), w["hex"])
     elif fam == "us":
         _set_tz("UTC")
         check_us(part, w["codec"], int(w["us"]))
